@@ -1433,16 +1433,16 @@ def judge(r, sink):
 
     def deviation():
         """Which open repair explains impl != model (the model has every proposed repair in)."""
-        if r.unindexed and r.impl == "other" and r.impl_cls == "StopIteration":
-            return SIG_UNINDEXED
-        if glob:
-            return SIG_WILDCARD
         if r.impl == r.ans["noDrcFix"]:
             return SIG_DRC
         if r.impl == r.ans["noNameFix"]:
             return SIG_NONAME
         if r.impl == r.ans["noDrcNoNameFix"]:
             return SIG_DRC
+        if r.unindexed and r.impl == "other" and r.impl_cls == "StopIteration":
+            return SIG_UNINDEXED
+        if glob:
+            return SIG_WILDCARD
         if r.impl == r.unrep:
             return SIG_OUTER
         return None
